@@ -4,9 +4,11 @@
 # records the outcome in seeded/<id>/detected.txt (mutants/<name>.detected.txt). Works on scratch
 # copies under /tmp (worktree of /repo HEAD + copy of /verif/sim pointing at it), removed at the end,
 # so it can run next to other work; the result is the same as `tools/try_mutant.sh` on /repo itself.
+# usage: seeded_eval.sh [shard] [nshards] [only-missing]     (default: shard 0 of 1)
 set -u
-R=/tmp/evalrepo; S=/tmp/evalsim; O=/tmp/evalout
-rm -rf $S $O; git -C /repo worktree remove --force $R 2>/dev/null
+SHARD=${1:-0}; NSHARDS=${2:-1}; ONLY_MISSING=${3:-}
+R=/tmp/evalrepo$SHARD; S=/tmp/evalsim$SHARD; O=/tmp/evalout$SHARD
+rm -rf $S $O; git -C /repo worktree remove --force $R 2>/dev/null; git -C /repo worktree prune
 git -C /repo worktree add -q --detach $R HEAD || exit 2
 mkdir -p $S $O/evidence; cp -r /verif/sim/src /verif/sim/Cargo.lock /verif/sim/.cargo $S/
 sed "s|path = \"/repo\"|path = \"$R\"|" /verif/sim/Cargo.toml > $S/Cargo.toml
@@ -16,21 +18,25 @@ run_one() { # patch, property, outfile
   if ! git -C $R apply "$1"; then echo "PATCH-DOES-NOT-APPLY" > "$3"; return; fi
   if (cd $S && cargo build --release --offline >$O/build.log 2>&1); then
     out=$($S/target/release/simcheck check --property $2 --tier quick 2>&1); code=$?
-    { echo "property=$2 exit=$code"; echo "$out" | grep -E "violation:|VIOLATION|HARNESS|KNOWN|verdict" | sed "s|$O|/verif|g" | cut -c1-800; } > "$3"
+    { echo "property=$2 exit=$code"; echo "$out" | grep -E "violation:|VIOLATION|HARNESS|KNOWN|note:|verdict" | sed "s|$O|/verif|g" | cut -c1-800; } > "$3"
   else
     echo "BUILD-FAILED" > "$3"
   fi
   git -C $R checkout -q -- .
 }
+i=0
 for d in /verif/seeded/*/; do
+  i=$((i+1)); [ $((i % NSHARDS)) -eq $SHARD ] || continue
   id=$(basename $d); prop=${id%%-*}
+  if [ -n "$ONLY_MISSING" ] && [ -s $d/detected.txt ] && [ $d/detected.txt -nt /verif/sim/src/main.rs ]; then continue; fi
   run_one $d/patch.diff $prop $d/detected.txt
   echo "$id: $(head -1 $d/detected.txt)"
 done
 for m in /verif/mutants/revert-fix-*.diff; do
+  i=$((i+1)); [ $((i % NSHARDS)) -eq $SHARD ] || continue
   prop=$(basename $m | sed 's/revert-fix-\(C[0-9]*\)-.*/\1/')
   run_one $m $prop ${m%.diff}.detected.txt
   echo "$(basename $m): $(head -1 ${m%.diff}.detected.txt)"
 done
 git -C /repo worktree remove --force $R; rm -rf $S $O
-echo SEEDED-EVAL-DONE
+echo SEEDED-EVAL-DONE shard $SHARD
